@@ -372,6 +372,24 @@ def gen_cases(rng, tier):
     n = {"quick": 48, "thorough": 600, "search": 300}[tier]
     vm = vt_mode()
     lines, dist = [], {"apis": n, "c_mode": 0, "cpp_mode": 0, "objects": 0, "groups": 0, "entries": 0, "clash": 0, "self_ret": 0, "consuming": 0, "cfg": 0}
+    # fixed: groups whose traits have names that are prefixes / suffixes of one another AND share method names (so that a wrapper picked by a
+    # loosely matched name reaches another trait's table), and entries with a two-argument generic type (a comma inside `<>` in C++)
+    fixed = []
+    for names in B.TRAIT_NAME_SETS[2:]:
+        for order in ((0, 1, 2, 3), (1, 0, 3, 2), (3, 2, 1, 0)):
+            traits = []
+            for k, ti in enumerate(order):
+                ms = [{"name": "get", "recv": "ref", "args": [("u32", "x")], "ret": "u32"},
+                      {"name": ["put", "run", "dup", "eat"][k], "recv": ["mut", "ref", "mut", "own"][k], "args": [("tup", "t"), ("u8", "y")] if k % 2 == 0 else [("pair", "val")], "ret": ["void", "tup", "u32", "u32"][k]}]
+                traits.append({"name": names[ti], "methods": ms, "rettmp": False})
+            fixed.append({"traits": traits, "objects": [{"trait": 1, "inner": "Box", "ctx": "Arc"}],
+                          "groups": [{"name": "Grp", "traits": [0, 1, 2, 3], "variants": [["Box", "Arc"]]}, {"name": "Feat", "traits": [1, 3], "variants": [["Mut", "None"]]}],
+                          "config": {"default_container": "Box", "default_context": "Arc"} if order[0] == 0 else {}})
+    for api in fixed:
+        import copy
+        lines.append(B.api_line(copy.deepcopy(api), vm))
+        lines.append(B.api_line(copy.deepcopy(api), "", 117))
+        dist["c_mode"] += 1; dist["cpp_mode"] += 1
     for i in range(n):
         api = B.gen_api(rng.fork("api%d" % i), "small" if i % 4 == 0 else "normal")
         cpp = (i % 3 == 2)
